@@ -8,6 +8,7 @@ Line protocol:
   counts <cases>                      cases = "-" | case;case…   case = <hexcls>.<hexname>.<execs>
                                       execs = "-" | digits 0-7 (bit 1 failure, 2 error, 4 skip)
   flake <n> <run>|<run>…              run = cases
+  e2e <n> <run>|<run>…                the same through the real `plz test` (one execution per case); output without cases=
   parse <doc> <doc>…                  doc = x:<layout>:<suite>/<suite>…   layout = flat | suites | bare | nested
                                             suite = "-" | xcase;xcase…   xcase = <hexcls>.<hexname>.<m><ff><fe><rf><re>
                                             (m = mask of failure/error/skipped elements, then four counts 0-9)
@@ -39,6 +40,11 @@ def showExec (e : Exec) : String := toString ((if e.failure then 1 else 0) + (if
 
 def showCase (c : Case) : String :=
   hexOfStr c.cls ++ "." ++ hexOfStr c.name ++ "." ++ (if c.execs.isEmpty then "-" else String.join (c.execs.map showExec))
+
+def counts (l : List Case) : String :=
+  "tests=" ++ toString (tests l) ++ " pass=" ++ toString (passes l) ++ " fail=" ++ toString (failures l)
+  ++ " err=" ++ toString (errors l) ++ " skip=" ++ toString (skips l) ++ " flaky=" ++ toString (flakyPasses l)
+  ++ " all=" ++ (if allSucceeded l then "1" else "0")
 
 def summary (l : List Case) : String :=
   "cases=" ++ (if l.isEmpty then "-" else ";".intercalate (l.map showCase))
@@ -100,6 +106,13 @@ def step (line : String) : String :=
   | ["flake", n, runs] =>
     match n.toNat?, (runs.splitOn "|").mapM parseCases with
     | some n, some rs => summary (flakeLoop n rs [])
+    | _, _ => "bad-op"
+  | ["e2e", n, runs] =>
+    match n.toNat?, (runs.splitOn "|").mapM parseCases with
+    | some n, some rs =>
+      if n < 1 ∨ n > 9 ∨ rs.any (fun run => run.any fun c => c.execs.length ≠ 1 ∨
+          c.execs.any fun e => (e.failure && e.error) || (e.failure && e.skip) || (e.error && e.skip)) then "bad-op"
+      else counts (flakeLoop n rs [])
     | _, _ => "bad-op"
   | "parse" :: docs =>
     if docs.isEmpty then "bad-op" else
